@@ -59,7 +59,26 @@ def judge_mutation(valid: str, mutated: str, via_object: bool = False, national:
     return ("bad" if k == "ok" else "good"), (k, v)
 
 
+def runtime_shard(args):
+    """Run-time update of the country table through registry.save (shared with C18): a country cloned
+    under a new code is judged by ITS code."""
+    from . import c18
+    from ..engine import sandbox
+    part = par.Part()
+    before = sandbox.deep_snapshot()
+    part["evals"] += 40
+    for i in range(40):
+        part.seen.add(hash(("runtime", i)))
+    for sig, exp, obs in c18.runtime_table_problems():
+        part.violation(sig + " [run-time table update]", {"kind": "runtime-table"}, exp, obs)
+    sandbox.assert_restored(before)
+    part.stat("runtime_table_updates", 3)
+    return part.done()
+
+
 def shard(args):
+    if args[0] == "runtime-table":
+        return runtime_shard(args)
     if args[0] == "after-activity":
         return after_activity_shard(args)
     if args[0] == "python -O":
@@ -144,6 +163,14 @@ def shard(args):
             import copy as _copy
             import pickle as _pickle
             part["evals"] += 3
+            class CustomerIBAN(lib.IBAN):   # an application-defined subclass judges like IBAN
+                pass
+            k3, v3 = lib.outcome(lambda: str(CustomerIBAN(mutated)))
+            if k3 == "ok":
+                part.violation(f"{kind_}-undetected-by-a-subclass-of-IBAN",
+                               {"kind": "c03", "valid": valid, "mutated": mutated, "how": how, "subclass": True},
+                               "reject", (k3, v3))
+                return
             k4, v4 = lib.outcome(lambda: str(lib.IBAN(mutated, False, True)))
             if k4 == "ok":
                 part.violation(f"{kind_}-undetected-with-positional-flags",
@@ -343,6 +370,10 @@ def optimised_child(tier):
 
 
 def replay(case: dict) -> dict:
+    if case.get("kind") == "runtime-table":
+        from . import c18
+        probs = c18.runtime_table_problems()
+        return {"ok": not probs, "observed": [(p[0], p[2]) for p in probs]}
     if case.get("how") == "python -O":
         part = par.in_interpreter(["-O"], "mc.props.c03", "optimised_child", "quick")
         hit = [v for v in part["violations"] if v["case"]["mutated"] == case["mutated"]]
@@ -350,6 +381,11 @@ def replay(case: dict) -> dict:
     if case.get("kind") == "c03seq":
         pc, m = case["partner"], case["mutated"]
         lib.iban_parse(pc + ri.check_digits(pc, m[4:]) + m[4:])
+    if case.get("subclass"):
+        class CustomerIBAN(lib.IBAN):
+            pass
+        k3, v3 = lib.outcome(lambda: str(CustomerIBAN(case["mutated"])))
+        return {"ok": k3 != "ok", "observed": (k3, v3), "expected": "reject"}
     if case.get("positional_flags"):
         k4, v4 = lib.outcome(lambda: str(lib.IBAN(case["mutated"], False, True)))
         return {"ok": k4 != "ok", "observed": (k4, v4), "expected": "reject"}
@@ -368,7 +404,7 @@ def replay(case: dict) -> dict:
 def main(tier: str) -> int:
     run = report.Run(PID, tier, "exploration", RULE)
     countries = sorted(reg.countries())
-    par.run_shards(run, shard, [("after-activity", tier), ("python -O", tier)] + [(c, tier) for c in countries])
+    par.run_shards(run, shard, [("runtime-table", tier), ("after-activity", tier), ("python -O", tier)] + [(c, tier) for c in countries])
     run.extra.update({"countries": len(countries), "error_bound": "one substitution or one adjacent "
                       "transposition per text", "fillers": "digits, letters" + (
                           ", distinct, max, seeded" if tier == "thorough" else "")})
